@@ -96,6 +96,11 @@ Definition coords_inj (l : list (option Z)) (n : Z) : Prop :=
 Definition key_pd (key : Z -> Z -> Z -> Z -> Z) : Prop :=
   forall x1 x2 y1 y2, key x1 x2 y1 y2 = 0 <-> (x1 = x2 /\ y1 = y2).
 Definition key_self0 (key : Z -> Z -> Z -> Z -> Z) : Prop := forall x y, key x x y y = 0.
+(* ... needed only at the raster's own coordinates *)
+Definition key_self0_on (key : Z -> Z -> Z -> Z -> Z) (xc yc : list (option Z)) : Prop :=
+  forall i j x y, coord xc i = Some x -> coord yc j = Some y -> key x x y y = 0.
+Lemma key_self0_everywhere key xc yc : key_self0 key -> key_self0_on key xc yc.
+Proof. intros H i j x y _ _; apply H. Qed.
 
 Section Spec.
   Variable key : Z -> Z -> Z -> Z -> Z.
@@ -109,7 +114,7 @@ Section Spec.
   Let g := process key tie_up R M xc yc values img.
   Hypothesis Hx : coords_ok xc w.
   Hypothesis Hy : coords_ok yc h.
-  Hypothesis Hk0 : key_self0 key.
+  Hypothesis Hk0 : key_self0_on key xc yc.
   Hypothesis HM0 : ele (EFin 0) M = true.
 
   Lemma named_target : forall r c e, 0 <= r < h -> 0 <= c < w ->
@@ -122,8 +127,8 @@ Section Spec.
     fold g in H. rewrite He in H. destruct H as ([tx ty] & (HT & HP) & Hi). simpl in *.
     exists ty, tx. destruct HP as [(-> & -> & ->)|(d & Hd & -> & Hm)].
     - exists 0. repeat split; auto.
-      unfold dist2. destruct (Hx c Hc) as (x & ->). destruct (Hy r Hr) as (y & ->).
-      rewrite Hk0. reflexivity.
+      unfold dist2. destruct (Hx c Hc) as (x & Ex). destruct (Hy r Hr) as (y & Ey).
+      rewrite Ex, Ey. rewrite (Hk0 c r x y Ex Ey). reflexivity.
     - exists d. repeat split; auto.
   Qed.
 
